@@ -223,6 +223,12 @@ def c13(tier, seed):
         for ctx in range(5):
             for sep in (0, 2):
                 jobs.append(job("HXssOrT", [1, i, ctx, sep if ctx >= 2 else 0], safety=True, witness_every=3, max_witness=1))
+    # the breakout quote at offset 0 (no filler before it)
+    for kind, n, st in ((0, NEVENTS, 11 if tier == "quick" else 1), (1, NBLACKS, 2 if tier == "quick" else 1)):
+        for i in range(seed % st, n, st):
+            for ctx in range(1, 5):
+                for sep in (100, 102):
+                    jobs.append(job("HXssOrT", [kind, i, ctx, sep if ctx >= 2 else 100], safety=True, witness_every=3, max_witness=1))
     c.run_group("T-vectors", XSST, jobs, expect_labels=["checked"])
     jobs = []
     picks = [(0, i) for i in range(seed % 29, NEVENTS, 29 if tier == "quick" else 5)] + [(1, i) for i in range(0, NBLACKS, 3 if tier == "quick" else 1)] + [(2, 0)]
@@ -736,8 +742,19 @@ def c14(tier, seed):
         for wl in ((3,) if tier == "quick" else (2, 3, 4)):
             jobs.append(job("HBenignShape", [shape, wl], safety=True, witness_every=200, max_witness=1))
     c.run_group("T-benign", SQLT, jobs, expect_labels=["checked"])
-    return c.finish("model_checking", "no {n,1} fingerprint of length 1-5 is blacklisted (symbolic fingerprint through the real blacklist()); sentences of k <= %d items (every number/identifier pattern; identifiers of free letters that are not a component of any keyword-table key); k = 6,7 with few identifiers; e-mail / decimal / sentence shapes" % K,
-                    {"max_items_complete": K})
+    # one free identifier among fixed fillers: longer words than the all-free sentences reach
+    jobs = []
+    K1, WLS = (5, (2, 3, 4, 5, 6, 8, 10)) if tier == "quick" else (6, (2, 3, 4, 5, 6, 7, 8, 9, 10, 12, 16))
+    for k in range(1, K1 + 1):
+        for pos in range(k):
+            for mask in range(1 << k):
+                if mask & (1 << pos):
+                    continue
+                for wl in WLS:
+                    jobs.append(job("HBenignOne", [k, mask, pos, wl], safety=True, witness_every=200, max_witness=1))
+    c.run_group("T-benign-one", SQLT, jobs, expect_labels=["checked"])
+    return c.finish("model_checking", "no {n,1} fingerprint of length 1-5 is blacklisted (symbolic fingerprint through the real blacklist()); sentences of k <= %d items (every number/identifier pattern; identifiers of free letters that are not a component of any keyword-table key); k = 6,7 with few identifiers; e-mail / decimal / sentence shapes; sentences of k <= %d fixed fillers with one free identifier of up to %d bytes at every position" % (K, K1, max(WLS)),
+                    {"max_items_complete": K, "one_free_word_items": K1, "one_free_word_len": max(WLS)})
 
 
 def c10(tier, seed):
@@ -788,6 +805,10 @@ def c11(tier, seed):
         jobs.append(job("HNameInvT", [1, i], witness_every=5, max_witness=1))
     for i in range(NTAGS):
         jobs.append(job("HNameInvT", [2, i], witness_every=5, max_witness=1))
+    for run in ((3, 40, 130) if tier == "quick" else (2, 3, 5, 9, 17, 31, 32, 33, 47, 48, 63, 64, 65, 127, 128, 129, 255, 256, 257, 1000)):
+        for kind, n, st in ((0, NEVENTS, 9 if tier == "quick" else 2), (1, NBLACKS, 2 if tier == "quick" else 1), (2, NTAGS, 3 if tier == "quick" else 1)):
+            for i in range((seed + run) % st, n, st):
+                jobs.append(job("HNameNulRunT", [kind, i, run], witness_every=5, max_witness=1))
     c.run_group("T-names", XSST + H("h_xss_inv.go", "h_url.go") + S("entity.go", "strlit.go"), jobs, expect_labels=["checked"])
     jobs = []
     names = ["javascript:", "vbscript:", "data:", "view-source:"]
